@@ -77,9 +77,26 @@ func (w *World) c10Predict(dt time.Duration) []c10Pos {
 		}
 		out = append(out, cp)
 	}
+	// perpetual handlers run inside a tx, i.e. after every module's begin-blocker of that block has run (borrow and funding
+	// rates are re-set there, the leveragelp sweep may move the amm pool): predict on a copy of the state on which the real
+	// begin-blockers have been run
+	pbase, _ := base.CacheContext()
+	func() {
+		defer func() {
+			if r := recover(); r != nil {
+				pbase, _ = base.CacheContext()
+			}
+		}()
+		if _, err := app.BeginBlocker(pbase); err != nil {
+			pbase, _ = base.CacheContext()
+		}
+	}()
 	for _, m0 := range app.PerpetualKeeper.GetAllMTPs(base) {
-		ctx, _ := base.CacheContext()
-		m := m0
+		ctx, _ := pbase.CacheContext()
+		m, err := app.PerpetualKeeper.GetMTP(ctx, sdk.MustAccAddressFromBech32(m0.Address), m0.Id)
+		if err != nil {
+			continue // gone in begin-block
+		}
 		cp := c10Pos{Module: "perp", Id: m.Id, Owner: m.Address, Pool: m.AmmPoolId, Long: m.Position == perptypes.Position_LONG, Size: m.Custody, Coll: m.Collateral,
 			Princ: m.Liabilities, StopLoss: m.StopLossPrice, TakeProf: m.TakeProfitPrice, Health: math.LegacyZeroDec(), Price: math.LegacyZeroDec()}
 		pool, _ := app.PerpetualKeeper.GetPool(ctx, m.AmmPoolId)
@@ -272,23 +289,40 @@ func runC10(t *testing.T, seed int64, n int, out *Out) {
 				if c.Module == "lp" {
 					if p, ok := w.lpPositions(w.Ctx())[c.Id]; ok && owner != nil {
 						lev := []string{"1", "1", "2", "5"}[r.Intn(4)]
+						lpBefore := w.lpPositions(w.Ctx())
 						res := tx(owner, &lptypes.MsgOpen{Creator: owner.Addr.String(), CollateralAsset: "uusdc", CollateralAmount: amt, AmmPoolId: p.AmmPoolId, Leverage: D(lev), StopLossPrice: p.StopLossPrice})
 						line := J{"t": "c10.open", "id": wi, "module": "lp", "code": res.Code, "safety": decRaw(lpSafety()), "reopen": true, "leverage": lev}
-						if q, ok := w.lpPositions(w.Ctx())[c.Id]; ok && res.Code == 0 {
-							line["health"] = decRaw(q.PositionHealth)
-							line["pos"] = c.Id
+						if res.Code == 0 {
+							now := w.lpPositions(w.Ctx())
+							for _, id := range sortedU64(now) {
+								if b, ok := lpBefore[id]; !ok || now[id].Collateral.Amount.GT(b.Collateral.Amount) {
+									line["health"] = decRaw(now[id].PositionHealth)
+									line["pos"] = id
+									line["consolidatedInto"] = ok
+								}
+							}
 						}
 						stats["reopen/lp/"+codeStr(res.Code)]++
 						out.Line(line)
 					}
 				} else if m, err := w.App.PerpetualKeeper.GetMTP(w.Ctx(), sdk.MustAccAddressFromBech32(c.Owner), c.Id); err == nil && owner != nil {
 					lev := []string{"0", "0", "1", "2", "4"}[r.Intn(5)]
+					beforeAll := map[uint64]perptypes.MTP{}
+					for _, x := range w.App.PerpetualKeeper.GetAllMTPs(w.Ctx()) {
+						beforeAll[x.Id] = x
+					}
 					res := tx(owner, &perptypes.MsgOpen{Creator: owner.Addr.String(), Position: m.Position, Leverage: D(lev), TradingAsset: m.TradingAsset, Collateral: sdk.NewCoin(m.CollateralAsset, amt),
 						TakeProfitPrice: m.TakeProfitPrice, StopLossPrice: m.StopLossPrice, PoolId: m.AmmPoolId})
 					line := J{"t": "c10.open", "id": wi, "module": "perp", "code": res.Code, "safety": decRaw(perpSafety()), "reopen": true, "leverage": lev}
-					if q, err := w.App.PerpetualKeeper.GetMTP(w.Ctx(), sdk.MustAccAddressFromBech32(c.Owner), c.Id); err == nil && res.Code == 0 {
-						line["health"] = decRaw(q.MtpHealth)
-						line["pos"] = c.Id
+					if res.Code == 0 {
+						// the position the message actually opened or consolidated into: the one whose collateral grew, or a new one
+						for _, q := range w.App.PerpetualKeeper.GetAllMTPs(w.Ctx()) {
+							if b, ok := beforeAll[q.Id]; !ok || q.Collateral.GT(b.Collateral) {
+								line["health"] = decRaw(q.MtpHealth)
+								line["pos"] = q.Id
+								line["consolidatedInto"] = ok
+							}
+						}
 					}
 					stats["reopen/perp/"+codeStr(res.Code)]++
 					if res.Code != 0 {
